@@ -196,6 +196,42 @@ def run(model: RepoModel, rep, tier: str):
     else:
         rep.violation("C17.R2", key, EM, cfg.stmt[hc].lineno, "EventManager.notify: " + why)
 
+    # language sets are stored as collections of names: a bare string is wrapped, never iterated
+    rcfg = cfg_of(register.node)
+    lp = "langs" if "langs" in register.params else (register.params[-1] if register.params else None)
+    store_calls = [n for n in rcfg.g.nodes for c in rcfg.calls_at(n) if is_self_attr(c.func) and c.func.attr in em.methods
+                   and any(isinstance(a, ast.Name) and a.id == lp for a in c.args)]
+    str_tests = [(t, lab) for (t, lab), b in rcfg.branch_of.items() if isinstance(rcfg.stmt[t], ast.If)
+                 and isinstance(rcfg.stmt[t].test, ast.Call) and call_name(rcfg.stmt[t].test) == "isinstance"
+                 and len(rcfg.stmt[t].test.args) == 2 and isinstance(rcfg.stmt[t].test.args[0], ast.Name) and rcfg.stmt[t].test.args[0].id == lp
+                 and dotted(rcfg.stmt[t].test.args[1]) == "str"]
+    wraps = {n for n in rcfg.g.nodes if rcfg.kind[n] == "stmt" and isinstance(rcfg.stmt[n], ast.Assign)
+             and isinstance(rcfg.stmt[n].targets[0], ast.Name) and rcfg.stmt[n].targets[0].id == lp
+             and isinstance(rcfg.stmt[n].value, (ast.List, ast.Tuple, ast.Set)) and len(rcfg.stmt[n].value.elts) == 1
+             and isinstance(rcfg.stmt[n].value.elts[0], ast.Name) and rcfg.stmt[n].value.elts[0].id == lp}
+    convs = [n for n in rcfg.g.nodes for c in rcfg.calls_at(n) if call_name(c) in ("list", "set", "tuple", "sorted", "frozenset")
+             and c.args and isinstance(c.args[0], ast.Name) and c.args[0].id == lp]
+    key = f"{EM}::EventManager.register::a bare language name is wrapped, not iterated"
+    probs = []
+    f_branches = {rcfg.branch_of[(t, "F")] for t, lab in str_tests if (t, "F") in rcfg.branch_of}
+    t_branches = {rcfg.branch_of[(t, "T")] for t, lab in str_tests if (t, "T") in rcfg.branch_of}
+    if store_calls:
+        p = rcfg.path_avoiding(rcfg.ENTRY, store_calls[0], wraps | f_branches)
+        if p is not None:
+            probs.append("a `str` language argument (the default config.ANY_LANG is one) reaches the handler list unwrapped, so "
+                         "`data.lang in langs` becomes a substring test")
+    for cn in convs:
+        if not any(rcfg.dominates(fb, cn) for fb in f_branches):
+            probs.append(f"`{norm(rcfg.stmt[cn])}` iterates the argument on a path where it may be a str: \"python\" becomes "
+                         f"['p','y','t','h','o','n'] and the handler never runs for its language")
+    if probs:
+        rep.violation("C17.R2", key, EM, register.node.lineno, "EventManager.register: " + "; ".join(probs))
+    elif store_calls:
+        rep.holds("C17.R2", key, EM, register.node.lineno,
+                  f"isinstance(langs, str) -> [langs]; {len(convs)} iterating conversion(s), all on the non-str branch")
+    else:
+        rep.unknown("C17.R2", key, EM, register.node.lineno, "register does not forward its language argument in a recognised way")
+
     # ------------------------------------------------------------------ R3 / R4
     # statement roles inside the loop
     hst = cfg.stmt[hc]
@@ -490,6 +526,12 @@ MUTANTS = [
                                  "data.lang in langs and config.ANY_LANG in langs"), "language filter"),
     ("lang-filter-dropped-any", EM, _mut(EM, "EventManager", "notify", "expr", lambda e: isinstance(e, ast.BoolOp),
                                          "data.lang in langs"), "language filter"),
+    ("register-iterates-str", EM, _mut(EM, "EventManager", "register", "stmt",
+                                       lambda st: isinstance(st, ast.If) and isinstance(st.test, ast.Call) and call_name(st.test) == "isinstance",
+                                       "if not isinstance(langs, list):\n    langs = list(langs)"), "bare language name"),
+    ("register-no-wrap", EM, _mut(EM, "EventManager", "register", "stmt",
+                                  lambda st: isinstance(st, ast.Assign) and isinstance(st.value, ast.List) and len(st.value.elts) == 1, "pass"),
+     "bare language name"),
     ("no-block-return", EM, _mut(EM, "EventManager", "notify", "stmt",
                                  lambda st: isinstance(st, ast.Return) and st.col_offset > 16, "pass"), "combine then block"),
     ("block-on-current", EM, _mut(EM, "EventManager", "notify", "expr",
